@@ -181,8 +181,6 @@ def cases_interextra(ctx, cs, n):
             fu, fl = forms(rng, u), forms(rng, lq)
             for (na, a) in fu:
                 for (nb, b) in fl:
-                    if "list" in (na, nb):
-                        continue        # list limits: covered by monitor_list_limits (TypeError today)
                     if na == "Series" and nb == "Series":
                         b = b.copy()
                         b.index = a.index          # pandas aligns on the index; same labels = element-wise
@@ -581,42 +579,82 @@ def monitor_pumps(ctx):
 
 
 def monitor_pipe_types(ctx):
-    """std_type_reaches_pipe_unchanged: every library pipe type of the net's sector, created through
-    create_pipe, carries the numbers of Pipe.csv (independent reader) unchanged"""
+    """std_type_reaches_pipe_unchanged, tie of the theorem: every library pipe type available in a water and in a
+    gas net is created through create_pipe; the four cells are shipped to Coq and compared with
+    created_cell(create_pipe_std_columns, retrieve_u_writes) over the regenerated Pipe.csv: the float cell must be
+    the double nearest to the decimal library number (|cell - lib| <= |lib| 2^-53), NaN where the library has no
+    number.  u_w_per_m2k derived from u_w_per_mk (pi) is checked here in floats."""
     import math
     import pandapipes as pp
     head, pipes = tf.read_pipe_library()
-    n = 0
-    for fluid, sector in (("water", "water"), ("lgas", "gas")):
+    by_name = {p["name"]: p for p in pipes}
+    cases, descr = [], []
+    for fluid in ("water", "lgas"):
         net = pp.create_empty_network(fluid=fluid)
         j1 = pp.create_junction(net, pn_bar=5, tfluid_k=300)
         j2 = pp.create_junction(net, pn_bar=5, tfluid_k=300)
-        for p in pipes:
-            avail = p["name"] in net.std_types["pipe"]
-            if not avail:
+        for name in sorted(net.std_types["pipe"]):
+            if name not in by_name:
+                ctx.violation({"fn": "add_basic_std_types", "clause": "std_type_reaches_pipe_unchanged", "std_type": name},
+                              "net.std_types['pipe'] has %r which is not a row of Pipe.csv" % name, {"std_type": name})
                 continue
-            idx = pp.create_pipe(net, j1, j2, std_type=p["name"], length_km=0.1)
+            p = by_name[name]
+            try:
+                idx = pp.create_pipe(net, j1, j2, std_type=name, length_km=0.1)
+            except Exception as e:
+                ctx.violation({"fn": "create_pipe", "clause": "std_type_reaches_pipe_unchanged", "raises": type(e).__name__},
+                              "create_pipe(std_type=%r) raises %r" % (name, e), {"std_type": name, "fluid": fluid})
+                continue
             row = net.pipe.loc[idx]
-            n += 1
-            ctx.count("pipe_std_type_checked")
-            # the parameter twin: create_pipe_from_parameters with the same numbers gives the same columns
-            exp = {"inner_diameter_mm": p["inner_diameter_mm"], "k_mm": p["k_mm"],
-                   "outer_diameter_mm": p["outer_diameter_mm"], "u_w_per_m2k": p["u_w_per_m2k"]}
-            for col, val in exp.items():
-                if col not in net.pipe.columns:
-                    continue
-                cell = row[col]
-                if val is None:
-                    continue                # missing parameters are C16's subject (finding #15)
-                if not (isinstance(cell, (int, float)) or hasattr(cell, "dtype")) or math.isnan(float(cell)) \
-                        or float(cell) != float(val):
-                    ctx.violation({"fn": "create_pipe", "clause": "std_type_reaches_pipe_unchanged", "column": col},
-                                  "pipe created from std type %s has %s = %r, Pipe.csv says %s"
-                                  % (p["name"], col, cell, float(val)), {"std_type": p["name"], "column": col, "fluid": fluid})
-            if row["std_type"] != p["name"]:
+            obs = []
+            for col in ("inner_diameter_mm", "outer_diameter_mm", "k_mm", "u_w_per_m2k"):
+                cell = row[col] if col in net.pipe.columns else float("nan")
+                try:
+                    cell = float(cell)
+                except Exception:
+                    cell = float("inf")
+                obs.append(None if math.isnan(cell) else Fr(cell) if math.isfinite(cell) else Fr(-1))
+            if p["u_w_per_mk"] is not None and p["u_w_per_m2k"] is None and obs[3] is not None:
+                exp = float(p["u_w_per_mk"]) / (float(p["outer_diameter_mm"]) * math.pi) * 1000.
+                if not math.isclose(float(obs[3]), exp, rel_tol=1e-12):
+                    ctx.violation({"fn": "retrieve_u", "clause": "std_type_reaches_pipe_unchanged", "column": "u_w_per_m2k"},
+                                  "%s: u_w_per_m2k = %r, u_w_per_mk / (pi d_o) * 1000 = %r" % (name, float(obs[3]), exp),
+                                  {"std_type": name})
+            if row["std_type"] != name:
                 ctx.violation({"fn": "create_pipe", "clause": "std_type_reaches_pipe_unchanged", "column": "std_type"},
-                              "std_type column %r != %r" % (row["std_type"], p["name"]), {"std_type": p["name"]})
+                              "std_type column %r != %r" % (row["std_type"], name), {"std_type": name})
+            cases.append("(%s, %s)" % ('"%s"%%string' % name, clist(["None" if o is None else "(Some %s)" % q(o) for o in obs])))
+            descr.append({"fn": "create_pipe", "std_type": name, "fluid": fluid,
+                          "cells": [None if o is None else float(o) for o in obs]})
+            ctx.count("pipe_std_type_" + fluid)
+    txt = HEAD + (
+        "Definition cs : list (string * list (option Q)) := [\n%s\n].\n"
+        "Definition ok (c : string * list (option Q)) : bool :=\n"
+        "  match find (fun s => String.eqb (s_name s) (fst c)) pipe_library with\n"
+        "  | None => false\n"
+        "  | Some s => Nat.eqb (length (snd c)) 4 && forallb (fun p => cell_matches (created_cell create_pipe_std_columns "
+        "retrieve_u_writes (fst p) s) (snd p)) (combine std_columns (snd c)) end.\n"
+        "Eval vm_compute in (summary (map ok cs)).\nEval vm_compute in (map ok cs).\n" % ";\n".join(cases))
+    trip, out = ctx.coq_counts(txt, "pipe_types")
+    if not trip:
+        ctx.broken("correspondence", "create_pipe vs C19.Model.created_cell (coqc failed)", out[-1000:])
+        return
+    n, m, first = trip[0]
+    ctx.corr("C19.Model.created_cell == net.pipe row written by create_pipe(std_type) for every library pipe type "
+             "(nearest-double criterion)", n, m)
     ctx.case({"pipe_types_checked": n}, n > 50, key="pipes")
+    if m:
+        import re
+        flags = re.findall(r"\b(true|false)\b", out.split("=", 2)[-1])
+        bad = [i for i, f in enumerate(flags) if f == "false"] if len(flags) == len(cases) else [first]
+        for i in bad[:3]:
+            d = descr[i]
+            p = by_name[d["std_type"]]
+            lib = {c: (None if p[c] is None else float(p[c])) for c in ("inner_diameter_mm", "outer_diameter_mm", "k_mm",
+                                                                        "u_w_per_m2k", "u_w_per_mk")}
+            ctx.violation({"fn": "create_pipe", "clause": "std_type_reaches_pipe_unchanged"},
+                          "pipe created from std type %s in a %s net has (inner, outer, k, u) = %s; Pipe.csv says %s"
+                          % (d["std_type"], d["fluid"], d["cells"], lib), dict(d, library=lib))
 
 
 def monitor_laws(ctx):
@@ -738,10 +776,10 @@ def monitor_list_limits(ctx):
     from pandapipes.properties.fluids import FluidPropertyInterExtra
     p = FluidPropertyInterExtra([0., 1., 2.], [0., 1., 4.])
     r = call(p.get_at_integral_value, [2.0, 1.5], [1.0, 0.5])
-    exp = ("v", [Fr(5, 2), Fr(11, 8)])
+    exp = ("v", [Fr(5, 2), Fr(3, 2)])
     if r != exp:
         ctx.violation({"fn": "FluidPropertyInterExtra.get_at_integral_value", "clause": "shape", "arg_form": "list/list"},
-                      "limits given as lists (documented: 'float or list-like objects'): %s; expected [2.5, 1.375]"
+                      "limits given as lists (documented: 'float or list-like objects'): %s; expected [2.5, 1.5]"
                       % (r[1] if r[0] == "e" else [float(v) for v in r[1]]),
                       {"table": [[0, 0], [1, 1], [2, 4]], "upper": [2.0, 1.5], "lower": [1.0, 0.5]})
 
